@@ -56,15 +56,25 @@ func (watcher *RequestWatcher) GetRequest(requestID string) (*Request, bool) {
 }
 
 func (watcher *RequestWatcher) AddRequest(req *Request) {
-	watcher.requestCount.Add(1)
+	watcher.AddRequestIfBelow(req, -1)
+}
 
+// AddRequestIfBelow registers the request unless maxCount (when >= 0) requests
+// are already registered; the check and the registration are one atomic step.
+func (watcher *RequestWatcher) AddRequestIfBelow(req *Request, maxCount int64) bool {
 	watcher.requestsMapMutex.Lock()
+	if maxCount >= 0 && watcher.requestCount.Load() >= maxCount {
+		watcher.requestsMapMutex.Unlock()
+		return false
+	}
+	watcher.requestCount.Add(1)
 	watcher.requests[req.GetID()] = req
 	watcher.requestsMapMutex.Unlock()
 
 	watcher.expireMapMutex.Lock()
 	watcher.requestsExpireAt[req.GetID()] = req.GetExpireAt()
 	watcher.expireMapMutex.Unlock()
+	return true
 }
 
 func (watcher *RequestWatcher) RemoveFromWatchList(requestID string) {
